@@ -359,6 +359,10 @@ def specs(tier, seed):
         out.append(("T2", dict(b, shape="T2", capital=64.0, prefund=[[[], "s1", 24.0], [[], "s2", 8.0]]), 2, 2))
         out.append(("F1", dict(b, shape="F1", capital=64.0), 1, 2))
         out.append(("T3", dict(a, shape="T3", capital=64.0, prefund=[[[], "s1", 32.0], [["s1"], "s11", 16.0]]), 1, 2))
+        # risk numbers with history: the rows of earlier dates are as frozen as any other recorded row
+        out.append(("T1risk", dict(v[0], shape="T1", capital=64.0, unit_risk=True, preops=[["transact", [], "a", 3.0], ["algos", [], {}, "UpdateRisk", ["M1", 2]]]), 1, 3))
+        # quotes of exactly zero: a trade there moves no cash at all
+        out.append(("T1zero", dict(v[2], shape="T1", capital=64.0, prices={"a": [4.0, 0.0, 2.0, 0.0], "b": [1.0, 2.0, 0.0, 1.0]}, preops=[["next"]]), 1, 2))
     else:
         for x in v:
             out.append(("T1", dict(x, shape="T1", capital=64.0), 3, 4))
@@ -367,11 +371,15 @@ def specs(tier, seed):
             out.append(("T3", dict(x, shape="T3", capital=64.0, prefund=[[[], "s1", 32.0], [["s1"], "s11", 16.0]]), 2, 3))
             out.append(("F1", dict(x, shape="F1", capital=64.0), 2, 3))
         out.append(("T1dec", dict(v[1], shape="T1", capital=64.0, alpha="decimal"), 2, 3))
+        out.append(("T1zero", dict(v[2], shape="T1", capital=64.0, prices={"a": [4.0, 0.0, 2.0, 0.0], "b": [1.0, 2.0, 0.0, 1.0]}, preops=[["next"]]), 2, 3))
         out.append(("F2", dict(v[0], shape="F2", capital=64.0), 2, 3))
     return out
 
 
-def ops_for(shape):
+def ops_for(shape, label=""):
+    if label == "T1risk":
+        R = []
+        return [["next"], ["update"], ["close", R, "a"], ["transact", R, "a", 3.0], ["transact", R, "b", -2.0], ["algos", R, {}, "UpdateRisk", ["M1", 2]]]
     return alpha.small_ops(shape)
 
 
@@ -387,7 +395,7 @@ def run(ctx):
     ctx.bounds = {"configs": [(p[0], {"fresh_read_prefix_len": p[2], "idempotence_history_len": p[3]}) for p in plan], "builds": kinds}
     for kind in kinds:
         for label, spec, lfresh, lidem in plan:
-            ops = ops_for(spec["shape"])
+            ops = ops_for(spec["shape"], label)
             prefixes = [list(p) for n in range(0, lfresh + 1) for p in itertools.product(ops, repeat=n)]
             if ctx.tier == "quick":
                 # the longest prefixes start with every other op of the alphabet (rotating with the seed)
